@@ -3,7 +3,11 @@ so that every case can be written to a replay file and re-executed."""
 import itertools
 import random
 
+import os
+
 AA = "ACDEFGHIKLMNPQRSTVWY"
+# thorough tiers multiply their random workloads by this factor; the per-shard soft time budget caps what is actually run
+THOROUGH_SCALE = int(os.environ.get("VERIF_THOROUGH_SCALE", "4"))
 
 
 def universe(alphabet, maxlen, minlen=0):
